@@ -7,6 +7,7 @@
 -/
 import PestModel.Front.Ast
 import PestModel.Props.C12Escapes
+import PestModel.Lemmas.FrontStrip
 
 namespace Pest
 namespace Front
@@ -192,18 +193,43 @@ theorem pyInt_intDigits {i : Int} (h : i.natAbs ≤ 4294967295) : pyInt (intDigi
 
 /-! ### numbers in tokens -/
 
+theorem natDigits_canonical (n : Nat) : Canonical (natDigits n) := by
+  rcases Nat.eq_zero_or_pos n with rfl | h
+  · exact .inl rfl
+  · obtain ⟨d, r, e, h1, h2⟩ := natDigits_head h
+    have := natDigits_digits n
+    rw [e] at this ⊢
+    exact .inr ⟨d, r, rfl, h1, h2, fun c hc => this c (by simp [hc])⟩
+
+theorem stripZeros_natDigits (n : Nat) : stripZeros (natDigits n) = natDigits n :=
+  stripZeros_of_canonical (natDigits_canonical n)
+
+/-- the printed numerals have no superfluous zeros: `parse_int` hands them to `int()` as they are -/
+theorem intLiteral_natDigits (n : Nat) : intLiteral (natDigits n) = natDigits n := by
+  rw [intLiteral_pos (head_ne_minus_of_digits (natDigits_digits n)), stripZeros_natDigits]
+
+theorem intLiteral_intDigits (i : Int) : intLiteral (intDigits i) = intDigits i := by
+  unfold intDigits
+  by_cases hi : i < 0
+  · simp only [hi, if_true]
+    rw [intLiteral_neg, stripZeros_natDigits]
+  · simp only [hi, if_false]
+    exact intLiteral_natDigits _
+
 theorem parseInt_nat {t : Token} {n : Nat} (hv : t.value = natDigits n) (h : n ≤ 4294967295)
     (eof : Token) (ts : List Token) : parseInt t eof ts = .ok (n : Int) ts := by
-  simp [parseInt, hv, pyInt_natDigits h]
+  simp [parseInt, hv, intLiteral_natDigits, pyInt_natDigits h]
 
 theorem parseInt_int {t : Token} {i : Int} (hv : t.value = intDigits i) (h : i.natAbs ≤ 4294967295)
     (eof : Token) (ts : List Token) : parseInt t eof ts = .ok i ts := by
-  simp [parseInt, hv, pyInt_intDigits h]
+  simp [parseInt, hv, intLiteral_intDigits, pyInt_intDigits h]
 
 theorem parseNumber_nat {t : Token} {n : Nat} (hv : t.value = natDigits n) (h : n ≤ 4294967295)
     (eof : Token) (ts : List Token) : parseNumber t eof ts = .ok (n : Int) ts := by
-  simp only [parseNumber, bind_eq, parseInt_nat hv h]
+  have hl := natDigits_length h
   have : ¬ ((n : Int) > MAX_REPEAT) := by simp [MAX_REPEAT]; omega
+  simp only [parseNumber, hv, stripZeros_natDigits, pyInt_natDigits h]
+  rw [if_neg (by omega)]
   simp [this]
 
 /-! ### what may follow -/
